@@ -512,13 +512,33 @@ func hashKey(s string) string {
 func checkProperty(c *Ctx, verifDir string, prop *Property, known *KnownFile, seed int, start time.Time) int {
 	var all []*Obligation
 	ruleCounts := map[string]map[string]int{}
-	for _, rn := range prop.Rules {
+	for _, spec := range prop.Rules {
+		// a rule may be restricted to some of its clauses: "R-RECSTATE:alias,reads-effect-free"
+		rn, filter := spec, ""
+		if k := strings.Index(spec, ":"); k >= 0 {
+			rn, filter = spec[:k], spec[k+1:]
+		}
 		r := rules[rn]
 		if r == nil {
 			fmt.Printf("internal: rule %s not registered\n", rn)
 			return 2
 		}
 		obs := runRule(c, r)
+		if filter != "" {
+			var kept []*Obligation
+			for _, o := range obs {
+				keep := o.verdict == Undecided && strings.HasPrefix(o.Key, "checker-panic")
+				for _, pre := range strings.Split(filter, ",") {
+					if strings.HasPrefix(o.Key, pre+":") || o.Key == pre {
+						keep = true
+					}
+				}
+				if keep {
+					kept = append(kept, o)
+				}
+			}
+			obs = kept
+		}
 		all = append(all, obs...)
 		rc := map[string]int{}
 		for _, o := range obs {
@@ -569,8 +589,8 @@ func checkProperty(c *Ctx, verifDir string, prop *Property, known *KnownFile, se
 	}
 	stats := map[string]int{}
 	for k, v := range c.stats {
-		for _, rn := range prop.Rules {
-			if strings.HasPrefix(k, rn+".") {
+		for _, spec := range prop.Rules {
+			if strings.HasPrefix(k, strings.SplitN(spec, ":", 2)[0]+".") {
 				stats[k] = v
 			}
 		}
@@ -586,8 +606,8 @@ func checkProperty(c *Ctx, verifDir string, prop *Property, known *KnownFile, se
 		}
 	}
 	ruleTexts := map[string]string{}
-	for _, rn := range prop.Rules {
-		ruleTexts[rn] = rules[rn].Doc
+	for _, spec := range prop.Rules {
+		ruleTexts[spec] = rules[strings.SplitN(spec, ":", 2)[0]].Doc
 	}
 	ev := Evidence{
 		PropertyID: prop.ID, Tier: c.Tier, Seed: seed, Level: "other",
